@@ -162,6 +162,16 @@ func VerifC13Driver() {
 	trie := New[uint64]()
 	model := &vnd.Map{}
 	txn := trie.Txn()
+	// PRESET: concrete committed pre-state (branching shapes that need 4+ entries)
+	for i, pk := range [][][2]int{nil, {{0, 1}, {64, 2}, {128, 1}, {192, 2}}, {{0, 0}, {0, 2}, {64, 2}, {128, 2}, {192, 2}}, {{16, 4}, {24, 5}, {32, 4}, {0, 1}}}[vnd.Param("PRESET", 0)] {
+		k := EncodeLPMKey([]byte{byte(pk[0])}, PrefixLen(pk[1]))
+		txn.Insert(k, uint64(100+i))
+		model.Put(k, uint64(100+i))
+	}
+	if vnd.Param("PRESET", 0) > 0 {
+		trie = txn.Commit()
+		txn = trie.Txn()
+	}
 	kept := []keptTrie{{trie, model.Snapshot()}}
 	var its []keptIt
 	var menu []int
